@@ -450,33 +450,52 @@ fn c12_key_method_endpoint() {
     core::mem::forget((r1, r2, k1, k2));
 }
 
-//@ props=C12 tier=quick timeout=1800 mem=33 cap=2
-//@ functions=RequestCacheKey::from(&CoapRequest), CoapRequest::get_path_as_vec, OptionValueString::try_from
-//@ bounds=paths enumerated from a concrete list (segments ["a","b"] vs ["a/b"] vs ["a","b"] again, plus ["a"] as a prefix); method and endpoint symbolic
-//@ what=paths that differ only in segmentation or are prefixes of one another give different keys; equal paths collapse exactly when method and endpoint agree
-//@ assumes=core::str::from_utf8 is replaced by the byte-loop RFC 3629 model (std's word-at-a-time validator is not affordable); path bytes are enumerated, not symbolic
-#[kani::proof]
-#[kani::unwind(6)]
-#[kani::stub(core::fmt::write, crate::verif_harness::stub_write)]
-#[kani::stub(core::str::from_utf8, crate::verif_harness::model_from_utf8)]
-fn c12_key_path_shapes() {
-    let (c1, c2): (u8, u8) = (kani::any(), kani::any());
-    kani::assume(c1 >= 1 && c1 <= 7 && c2 >= 1 && c2 <= 7);
-    let (e1, e2): (u8, u8) = (kani::any(), kani::any());
-    let r1 = key_request(c1, e1, 2);
-    let r2 = key_request(c2, e2, 3);
-    let r3 = key_request(c2, e2, 2);
-    let r4 = key_request(c2, e2, 1);
-    let k1 = RequestCacheKey::from(&r1);
-    let k2 = RequestCacheKey::from(&r2);
-    let k3 = RequestCacheKey::from(&r3);
-    let k4 = RequestCacheKey::from(&r4);
-    assert!(k1 != k2, "C12: segments [a, b] and the single segment a/b are different resources");
-    assert!(k1 != k4 && k2 != k4, "C12: a path and its prefix are different resources");
-    assert!((k1 == k3) == (c1 == c2 && e1 == e2), "C12: equal paths share a key exactly when method and endpoint agree");
-    kani::cover!(c1 == c2 && e1 == e2, "same transfer");
-    core::mem::forget((r1, r2, r3, r4, k1, k2, k3, k4));
+macro_rules! c12_key_paths {
+    ($name:ident, $shape1:expr, $shape2:expr, $same_path:expr) => {
+        #[kani::proof]
+        #[kani::unwind(5)]
+        #[kani::stub(core::fmt::write, crate::verif_harness::stub_write)]
+        #[kani::stub(core::str::from_utf8, crate::verif_harness::model_from_utf8)]
+        fn $name() {
+            let (c1, c2): (u8, u8) = (kani::any(), kani::any());
+            kani::assume(c1 >= 1 && c1 <= 7 && c2 >= 1 && c2 <= 7);
+            let (e1, e2): (u8, u8) = (kani::any(), kani::any());
+            let r1 = key_request(c1, e1, $shape1);
+            let r2 = key_request(c2, e2, $shape2);
+            let k1 = RequestCacheKey::from(&r1);
+            let k2 = RequestCacheKey::from(&r2);
+            if $same_path {
+                assert!((k1 == k2) == (c1 == c2 && e1 == e2), "C12: equal paths share a key exactly when method and endpoint agree");
+            } else {
+                assert!(k1 != k2, "C12: requests for different paths (segmentation, prefix) never share a cache key");
+            }
+            kani::cover!(c1 == c2 && e1 == e2, "same method and endpoint");
+            kani::cover!(c1 != c2, "different methods");
+            core::mem::forget((r1, r2, k1, k2));
+        }
+    };
 }
+
+//@ props=C12 tier=quick timeout=1800 mem=28 cap=2 name=c12_key_segmentation
+//@ functions=RequestCacheKey::from(&CoapRequest), CoapRequest::get_path_as_vec, OptionValueString::try_from
+//@ bounds=Uri-Path segments ["a","b"] vs the single segment "a/b" (concrete); method code 1..7 and endpoint (u8) symbolic for both requests
+//@ what=paths that differ only in segmentation never share a cache key
+//@ assumes=core::str::from_utf8 is replaced by the byte-loop RFC 3629 model; path bytes are enumerated, not symbolic
+c12_key_paths!(c12_key_segmentation, 2, 3, false);
+
+//@ props=C12 tier=quick timeout=1800 mem=28 cap=2 name=c12_key_same_path
+//@ functions=RequestCacheKey::from(&CoapRequest), CoapRequest::get_path_as_vec
+//@ bounds=both requests for ["a","b"]; method and endpoint symbolic
+//@ what=equal paths collapse exactly when method and endpoint agree
+//@ assumes=core::str::from_utf8 is replaced by the byte-loop RFC 3629 model
+c12_key_paths!(c12_key_same_path, 2, 2, true);
+
+//@ props=C12 tier=thorough timeout=1800 mem=28 cap=2 name=c12_key_prefix
+//@ functions=RequestCacheKey::from(&CoapRequest), CoapRequest::get_path_as_vec
+//@ bounds=["a","b"] vs its prefix ["a"]; method and endpoint symbolic
+//@ what=a path and its prefix never share a cache key
+//@ assumes=core::str::from_utf8 is replaced by the byte-loop RFC 3629 model
+c12_key_paths!(c12_key_prefix, 2, 1, false);
 
 // ---------------------------------------------------------------------------------------------
 // C08 / C10 / C11 / C12: public entry points with the cache-lookup model (lru=1)
